@@ -160,6 +160,7 @@ EnumCallbacks ==
   \E f \in CbFamily :
     LET rv == Family[f] IN
     \/ \E m \in IterMethods : \E t \in Tabs(3) : Emit(CallCase(m, rv, <<>>, FnCb(m, t, Undef, FALSE)))
+    \/ (~Quick /\ f \in {24, 34} /\ \E m \in IterMethods : \E t \in [1..4 -> Syms] : Emit(CallCase(m, rv, <<>>, FnCb(m, t, Undef, FALSE))))
     \/ \E m \in {"reduce", "reduceRight"} : \E t \in Tabs(3) : \E a \in {<<>>, <<VInt(100)>>, <<Undef>>} :
          Emit(CallCase(m, rv, a, FnCb(m, t, Undef, FALSE)))
     \/ \E m \in IterMethods : \E t \in Tabs(1) : \E th \in {VInt(5), AR, Undef, Ref(1)} :
